@@ -325,6 +325,7 @@ def generate(rng, tier):
             m["bc"] = rng.choice(["", "", "x", "xyz"[:len(m["n"])], "xyz"[len(m["n"]) - 1], "neumann", "dirichlet"])
         else:
             m["bc"] = rng.choice(["", "", "neumann", "dirichlet"])
+        m["siblings"] = (k % 3 == 0)
         for cls, i in gen_indices(rng, m):
             cases.append(dict(kind="i2p", mesh=m, cls=cls, i=i))
         for cls, p in (probes_exact(rng, m) if m["exact"] else probes_scale(rng, m)):
@@ -340,10 +341,32 @@ def generate(rng, tier):
         m = gen_mesh_big(rng)
         m["n_type"] = rng.choice(["list", "tuple", "int64", "uint64", "int32"])
         m["bc"] = rng.choice(["", "x"])
+        if k % 2 == 0:
+            # a comparison tolerance WIDER than a cell: points of the tolerance band several cells beyond pmax /
+            # below pmin still belong to the region and map to the last / first cell
+            m["tf"] = S(F(1, 2 ** 10))
+            lo_, hi_, cell_ = mesh_geom(m)
+            a_ = m["big_axis"]
+            atol_ = min(h - l for l, h in zip(lo_, hi_)) * F(1, 2 ** 10)
+            for sign, frac in ((1, F(1, 2)), (1, F(3, 4)), (-1, F(1, 2)), (1, F(1, 64)), (1, 2), (-1, 2)):
+                p_ = [l + c / 2 for l, c in zip(lo_, cell_)]
+                edge = hi_[a_] if sign > 0 else lo_[a_]
+                tau = atol_ + F(1, 2 ** 10) * abs(edge)
+                p_[a_] = edge + sign * frac * tau
+                if all(F(float(x)) == x for x in p_):
+                    cases.append(dict(kind="p2i", mesh=m, cls="band", p=[S(x) for x in p_]))
         for cls, i in gen_indices_big(rng, m):
             cases.append(dict(kind="i2p", mesh=m, cls=cls, i=i))
         for cls, p_ in probes_exact(rng, m):
             cases.append(dict(kind="p2i", mesh=m, cls=cls, p=p_))
+    # integer-typed corners with long edges in 4 dimensions: products of edges beyond the int64 range
+    for edges in ([65536] * 4, [60000, 70000, 55109, 65536], [2 ** 20, 2 ** 20, 2 ** 20, 2 ** 4]):
+        lo_ = [rng.randint(-5, 5) for _ in edges]
+        m = dict(exact=True, p1=[S(F(a)) for a in lo_], p2=[S(F(a + e)) for a, e in zip(lo_, edges)],
+                 n=[rng.choice([1, 2, 4]) for _ in edges], tf=S(F(1, 2 ** 30)), int_corners=True,
+                 n_type="list", bc="")
+        for cls, i in gen_indices(rng, m):
+            cases.append(dict(kind="i2p", mesh=m, cls=cls, i=i))
     for k in range(nm * 2):
         cases.append(gen_bycell(rng, exact=(k % 2 == 0)))
     for k in range(nm // 2):
@@ -376,7 +399,24 @@ def build(m):
     if m.get("int_corners"):
         p1, p2 = [int(x) for x in p1], [int(x) for x in p2]
     region = df.Region(p1=p1, p2=p2, tolerance_factor=fl(m["tf"]))
-    mesh = df.Mesh(region=region, n=typed_n(src["n"], m.get("n_type", "list")), bc=m.get("bc", ""))
+    n_arg = typed_n(src["n"], m.get("n_type", "list"))
+    mesh = df.Mesh(region=region, n=n_arg, bc=m.get("bc", ""))
+    if m.get("siblings") and not m.get("pre"):
+        # other meshes made from the SAME n object, and copies returned by the library, are changed in place;
+        # the lattice of THIS mesh must not move (no state shared between meshes), nor the caller's n
+        n_before = [int(k) for k in np.asarray(n_arg).tolist()] if not isinstance(n_arg, int) else n_arg
+        sibs = [df.Mesh(region=df.Region(p1=p1, p2=p2, tolerance_factor=fl(m["tf"])), n=n_arg),
+                mesh.translate([0.0] * len(p1)), mesh.scale(1.0)]
+        nd_ = len(p1)
+        for sb in sibs:
+            _ = sb.cell, sb.dV
+            if nd_ >= 2:
+                d_ = sb.region.dims
+                sb.rotate90(d_[0], d_[nd_ - 1], k=1, inplace=True)
+            sb.scale(2.0, inplace=True)
+            sb.translate([1.0] * nd_, inplace=True)
+        if [int(k) for k in np.asarray(n_arg).tolist()] != n_before:
+            raise AssertionError("the caller's n was modified by a sibling mesh")
     if m.get("pre"):
         _ = mesh.cell, mesh.dV, len(mesh)
         mesh.index2point((0,) * len(src["n"]))
@@ -517,6 +557,14 @@ def run_case(c):
     lo, hi, cell = mesh_geom(m)
     n = m["n"]
     sc = scale_of(m)
+    # cell volume and cell count: the cells tile the region (N * dV = volume of the region)
+    want_dv = math.prod(cell)
+    st_dv, dv = attempt(lambda: float(mesh.dV))
+    if st_dv != "ok" or abs(F(dv) - want_dv) > (0 if exact else F(1, 10 ** 12)) * want_dv:
+        rec["oracle"].append("cell-volume")
+    if len(mesh) != math.prod(n) or (st_dv == "ok" and abs(F(dv) * len(mesh) - math.prod(h - l for l, h in zip(lo, hi)))
+                                     > F(1, 10 ** 12) * math.prod(h - l for l, h in zip(lo, hi))):
+        rec["oracle"].append("cells-do-not-tile-the-volume")
     if kind == "nonfinite":
         # a point with a NaN / infinite coordinate lies in no cell: not contained, no index (oracle only: Q has no NaN)
         bad = {"nan": float("nan"), "inf": float("inf"), "-inf": float("-inf")}[c["what"]]
